@@ -20,9 +20,24 @@ for d in sorted((ROOT / "seeded").glob("*/meta.json")):
     srows.append(f"| {d.parent.name} | {m.get('property')} | {summ} | {needs} | {'yes' if v.get('detected') else 'NO'} | "
                  f"{'yes' if v.get('detected_with_failing_input') else 'no'} | {keys} |")
 seeded = "\n".join(srows)
+# per-property status from the evidence files of the last runs
+props = {json.loads(l)["id"]: json.loads(l) for l in (ROOT / "properties.jsonl").read_text().splitlines() if l.strip()}
+strows = ["| prop | title | theorems | _partial | _cex | tier | correspondence cases (mismatches) | oracle evaluations | known findings hit | wall s |",
+          "|---|---|---|---|---|---|---|---|---|---|"]
+for pid in sorted(props):
+    ev = ROOT / "evidence" / f"{pid}.json"
+    if not ev.exists():
+        strows.append(f"| {pid} | {props[pid]['title']} | – | | | | | | | |"); continue
+    e = json.loads(ev.read_text()); c = e["coverage"]
+    names = [t["name"].split(".")[-1] for t in c.get("theorems", [])]
+    npart = sum(1 for n in names if n.endswith("_partial")); ncex = sum(1 for n in names if "cex" in n)
+    strows.append(f"| {pid} | {props[pid]['title']} | {c.get('discharged')}/{c.get('obligations')} | {npart} | {ncex} | {e['tier']} | "
+                  f"{c.get('correspondence_cases')} ({c.get('correspondence_mismatches')}) | {c.get('oracle_evaluations')} | "
+                  f"{', '.join(c.get('known_findings_hit', {}).keys()) or '–'} | {e['wall_s']} |")
+status = "\n".join(strows)
 p = ROOT / "DESIGN.md"
 s = p.read_text()
-for name, body in (("FINDINGS", findings), ("SEEDED", seeded)):
+for name, body in (("FINDINGS", findings), ("SEEDED", seeded), ("STATUS", status)):
     b, e = f"<!-- BEGIN {name} -->", f"<!-- END {name} -->"
     if b in s:
         s = s[: s.index(b) + len(b)] + "\n" + body + "\n" + s[s.index(e):]
